@@ -241,7 +241,7 @@ struct Plan {
     base_cap: usize,
 }
 
-const DIRECTED: usize = 13;
+const DIRECTED: usize = 14;
 
 fn plan(tier_quick: bool, items: &[Item]) -> Plan {
     let dev = std::env::var("VERIF_C10_MUTANTS").ok().and_then(|s| s.parse::<usize>().ok());
@@ -317,6 +317,33 @@ fn directed_case(items: &[Item], d: usize) -> Option<Case> {
             let size: [u8; 4] = if d == 4 { [0x4E, 0x03, 0x00, 0x00] } else { [0xFF, 0xFF, 0xFF, 0x06] };
             v[14..18].copy_from_slice(&size);
             Some(Case { base: "tiny.mp3".into(), base_fmt: "mp3".into(), kind: "elem-header+directed".into(), evals: vec![Eval { ep: Ep::WithStream, hint: "mp3".into(), bytes: Arc::new(v), store: None }] })
+        }
+        13 => {
+            // signed JPEG + a second, very short APP11 JUMBF segment (11 content bytes: CI "JP", the box
+            // instance number of the manifest segment, packet sequence 2, three payload bytes)
+            let j = items.iter().find(|i| i.name == "signed:tiny.jpg")?;
+            let b = &j.bytes;
+            let mut o = 2usize;
+            let mut hit = None;
+            while o + 4 <= b.len() && b[o] == 0xFF {
+                let len = u16::from_be_bytes([b[o + 2], b[o + 3]]) as usize;
+                if b[o + 1] == 0xEB && len >= 10 && &b[o + 4..o + 6] == b"JP" {
+                    hit = Some((o, len));
+                    break;
+                }
+                if b[o + 1] == 0xDA {
+                    break;
+                }
+                o += 2 + len;
+            }
+            let (o, len) = hit?;
+            let en = [b[o + 6], b[o + 7]];
+            let mut seg = vec![0xFF, 0xEB, 0x00, 13, b'J', b'P', en[0], en[1], 0, 0, 0, 2, 0xAA, 0xBB, 0xCC];
+            let at = o + 2 + len;
+            let mut v = b[..at].to_vec();
+            v.append(&mut seg);
+            v.extend_from_slice(&b[at..]);
+            Some(Case { base: "signed:tiny.jpg".into(), base_fmt: "jpg".into(), kind: "elem-dup+directed".into(), evals: vec![Eval { ep: Ep::WithStream, hint: "jpg".into(), bytes: Arc::new(v.clone()), store: None }, Eval { ep: Ep::LoadJumbf, hint: "jpg".into(), bytes: Arc::new(v), store: None }] })
         }
         11 | 12 => {
             // minimal TIFF whose only IFD entry is a SubIFDs tag (0x014A, LONG) with a forged count
